@@ -16,17 +16,18 @@ def na(pid, reason):
 TRUST = ("Trusted base: go/packages + go/types + go/ssa (x/tools v0.29.0) faithfully represent /repo's non-test sources "
          "of package mqtt for GOARCH=amd64 (thorough: also 386); the checker's own rule code, including the "
          "source-level inliner that normalises helper functions absent from the reference tree before the rules run "
-         "(semantics-preserving by construction, identity on the unchanged tree, DESIGN.md 9.6) and the infeasible-edge "
-         "oracle (nil tests of values known non-nil). ")
+         "(semantics-preserving by construction, identity on the unchanged tree, DESIGN.md 9.6/9.7) and the path-feasibility "
+         "reasoning all path queries share (nil tests of values known non-nil, conditions tested twice, constants that reach a "
+         "test through a result variable: only paths no execution takes are removed). Known limits: DESIGN.md 9.5. ")
 
 exec(open(os.path.join(HERE, "tools", "manifest_table.py")).read())
 
 ADD = {
- "C01": " Also decided: every early exit of the Retry loop puts the unattempted entries back; the reconnect loop stops only on request (context done, Disconnect, graceful end).",
+ "C01": " Also decided: every early exit of the Retry loop puts the unattempted entries back; the reconnect loop stops only on request (context done, Disconnect, graceful end); the reader goroutine records the connection error before Done() closes (the loop reads Err() right after it).",
  "C02": " Also decided: every failure of the QoS 2 exchange after registration carries a retry handle that the error wrappers keep; early exits of the Retry loop put the unattempted entries back.",
  "C04": " Also decided: the Message a PUBLISH is parsed into is a fresh object per packet (a held QoS 2 message cannot be overwritten by the next PUBLISH).",
  "C09": " Also decided: every path of the reconnect goroutine to a return passes ctx-done, `disconnected` or Err() == nil; a failed ping makes KeepAlive return a non-nil error and leaves the closed connection with a non-nil Err().",
- "C11": " Also decided: BaseClient.Close closes the transport on every path, and so does Disconnect once DISCONNECT was written.",
+ "C11": " Also decided: BaseClient.Close closes the transport on every path, and so does Disconnect once DISCONNECT was written; the packet body allocation is bounded by the protocol maximum (a crafted length cannot make the reader wait for gigabytes).",
  "C12": " Also decided: PUBREL is written only by the PUBREL stage of the QoS 2 publish.",
  "C13": " Also decided: after a keep-alive failure the closed connection reports a non-nil Err(), so the loop redials.",
  "C15": " Also decided: Message.ID is written only in the publish implementation, only when it is 0, from newID(); the counter is followed through pointer conversions and helper methods.",
